@@ -435,13 +435,19 @@ def stream_numerals(ctx, thorough):
         for u in ["kb", "Mb", "GB", "K", "m", "g"]:
             jobs.append((30, 3, u))
         for u in ["k", "M", "G"]:
-            jobs.append((4, 4, u))
-    exprs = [f"rle_deltas (map (fun n => parse_humanized (n ++ {lit(u)})) (numerals {C.z(na)} {k}%nat))" for na, k, u in jobs]
+            jobs.append((30, 4, u))
+    # long streams are cut into pieces of <= 30 000 numerals (a deep non-tail-recursive map overflows coqc's stack)
+    pieces = []   # (a0, na, k, unit)
+    for na, k, u in jobs:
+        step = max(1, 30000 // 10 ** k)
+        for a0 in range(0, na, step):
+            pieces.append((a0, min(step, na - a0), k, u))
+    exprs = [f"rle_deltas (map (fun n => parse_humanized (n ++ {lit(u)})) (numerals_range {C.z(a0)} {C.z(na)} {k}%nat))" for a0, na, k, u in pieces]
     model = eval_exprs(ctx, exprs, "numerals")
     tally = Tally(ctx, "numerals")
     n_integral = 0
-    for (na, k, u), rle in zip(jobs, model):
-        strings = [f"{a}.{f:0{k}d}{u}" if k else f"{a}.{u}" for a in range(na) for f in range(10 ** k)]
+    for (a0, na, k, u), rle in zip(pieces, model):
+        strings = [f"{a}.{f:0{k}d}{u}" if k else f"{a}.{u}" for a in range(a0, a0 + na) for f in range(10 ** k)]
         mres, prev = [], 0           # decode the lossless run-length encoding of successive differences (-1 = None)
         for d, cnt in rle:
             for _ in range(cnt):
